@@ -2,6 +2,7 @@ package linter
 
 import (
 	"fmt"
+	"slices"
 	"strings"
 
 	"github.com/ysugimoto/falco/v2/ast"
@@ -564,34 +565,49 @@ func (l *Linter) lintReturnStatement(stmt *ast.ReturnStatement, ctx *context.Con
 	// https://developer.fastly.com/learning/vcl/using/#the-vcl-request-lifecycle
 	expects := make([]string, 0, 3)
 
-	switch ctx.Mode() {
-	case context.RECV:
+	// legal actions of each scope
+	actions := []struct {
+		scope   int
+		expects []string
+	}{
 		// https://developer.fastly.com/reference/vcl/subroutines/recv/
-		expects = append(expects, "lookup", "pass", "error", "restart")
-	case context.HASH:
+		{context.RECV, []string{"lookup", "pass", "error", "restart"}},
 		// https://developer.fastly.com/reference/vcl/subroutines/hash/
-		expects = append(expects, "hash")
-	case context.HIT:
+		{context.HASH, []string{"hash"}},
 		// https://developer.fastly.com/reference/vcl/subroutines/hit/
-		expects = append(expects, "deliver", "pass", "error", "restart")
-	case context.MISS:
+		{context.HIT, []string{"deliver", "pass", "error", "restart"}},
 		// https://developer.fastly.com/reference/vcl/subroutines/miss/
-		expects = append(expects, "fetch", "deliver_stale", "pass", "error")
-	case context.PASS:
+		{context.MISS, []string{"fetch", "deliver_stale", "pass", "error"}},
 		// https://developer.fastly.com/reference/vcl/subroutines/pass/
-		expects = append(expects, "pass")
-	case context.FETCH:
+		{context.PASS, []string{"pass"}},
 		// https://developer.fastly.com/reference/vcl/subroutines/fetch/
-		expects = append(expects, "deliver", "deliver_stale", "hit_for_pass", "pass", "error", "restart")
-	case context.ERROR:
+		{context.FETCH, []string{"deliver", "deliver_stale", "hit_for_pass", "pass", "error", "restart"}},
 		// https://developer.fastly.com/reference/vcl/subroutines/error/
-		expects = append(expects, "deliver", "deliver_stale", "restart")
-	case context.DELIVER:
+		{context.ERROR, []string{"deliver", "deliver_stale", "restart"}},
 		// https://developer.fastly.com/reference/vcl/subroutines/deliver/
-		expects = append(expects, "deliver", "restart")
-	case context.LOG:
+		{context.DELIVER, []string{"deliver", "restart"}},
 		// https://developer.fastly.com/reference/vcl/subroutines/log/
-		expects = append(expects, "deliver")
+		{context.LOG, []string{"deliver"}},
+	}
+	// A subroutine may have several scopes (scope annotation), then an action is legal
+	// only when it is legal in every scope
+	first := true
+	for _, a := range actions {
+		if ctx.Mode()&a.scope == 0 {
+			continue
+		}
+		if first {
+			expects = append(expects, a.expects...)
+			first = false
+			continue
+		}
+		common := expects[:0]
+		for _, e := range expects {
+			if slices.Contains(a.expects, e) {
+				common = append(common, e)
+			}
+		}
+		expects = common
 	}
 
 	// If return statement does not have arguemnt, but Fastly requires next state in state-machine method like "vcl_recv"
